@@ -440,7 +440,7 @@ Proof.
   - set (cands := cs_prefix_candidates (cs s) now mbf n).
     assert (CP : forall x, In x cands -> is_prefix n (cs_name x) = true).
     { intros x Hx. unfold cands, cs_prefix_candidates in Hx. apply filter_In in Hx. destruct Hx as [_ Hx].
-      apply andb_true_iff in Hx. destruct Hx as [Hx _]. apply andb_true_iff in Hx. apply Hx. }
+      apply andb_true_iff in Hx. apply Hx. }
     destruct cands as [|c0 cr] eqn:EC; [destruct pick; discriminate|].
     destruct pick as [p|].
     + destruct (filter (fun e => name_eqb (cs_name e) p && negb (blocked (cs_name e))) (c0 :: cr)) as [|e er] eqn:F.
